@@ -14,6 +14,16 @@ REGISTRY = {
                 "negative ints for get_bytes_cnt_of_int/reverse_bits.",
         "design_ref": "§6 C20",
     },
+    "C11": {
+        "text": "Proof: 18 Lean theorems over a hand model of Register/RegsBitField/Registers (bit-level meaning of a field write, get-after-set, "
+                "frame, rejection of values that do not fit, byte-reversed and grouped views consistent, well-formedness preserved by every op, "
+                "history theorems by induction over op sequences: a field reads the last value written to it; export/parse restores every value). "
+                "The model is tied to /repo by comparing the complete observable state after every op of random op sequences over random layouts.",
+        "note": "Trusted: Lean kernel, the op-sequence correspondence (generator quality bounds the tie), Python int semantics. Config processors other "
+                "than SHIFT_RIGHT, alt-width registers (oracle only), YAML rendering are not modelled. get_config/load_yml_config round trip and purity "
+                "of read-only queries are decided on the real code (differential), not by theorem.",
+        "design_ref": "§6 C11",
+    },
 }
 
 # properties the technique cannot decide at all (none so far); others not yet in REGISTRY are listed as "not built yet"
